@@ -196,7 +196,7 @@ def rule_sp_sem(ctx: RuleContext, p: Program, rid: str, max_len: int = 5) -> Non
                         if t.cls == 'Whitespace':
                             t.cls = 'Newline'
                 nxt = {id(t): (toks[i + 1] if i + 1 < len(toks) else None) for i, t in enumerate(toks)}
-                it = Interp(ts, [])
+                it = Interp(ts, [], module=m)
                 res = it.call_function(fn, [toks[0] if toks else None, lambda t: nxt[id(t)]], {})
                 n += 1
                 if not isinstance(res, (list, tuple)):
